@@ -559,7 +559,9 @@ def main():
             "theorems": names,
             "checker_cmd": "cd lean && lake build && lake env lean <generated #print axioms file> (thorough: + lake env leanchecker PyemvProps." + pid + ")",
             "trusted_base": ["Lean 4.33.0 kernel", "axioms propext, Classical.choice, Quot.sound only (audited by #print axioms on every run)",
-                             "hand-written Impl model tied to /repo by the differential correspondence recorded below",
+                             "hand-written Impl model tied to /repo's current source on this run by (1) the source-to-Lean translators "
+                             "(harness/translate_*.py, trusted) whose output is proved equal to the model by the *Refines theorems listed above, "
+                             "and (2) the differential correspondence recorded below",
                              "Lean compiler/runtime executing the model; the Python harness and canonicaliser",
                              "OpenSSL TDES, hashlib.sha1 and CPython builtins are modelled, not verified"],
             "proof_problems": proof_problems,
